@@ -216,6 +216,32 @@ func argsEqStrict(a, b [][]byte) bool {
 
 // ---------------------------------------------------------------------------------------------
 
+// wrapResidues lists every n with 3n+1 or 3n+2 (mod 2^64) <= 12: the transfer counts for which the
+// argument-count arithmetic of the multi-transfer wraps around to a small number.
+func wrapResidues() [][]byte {
+	two64 := new(big.Int).Lsh(big.NewInt(1), 64)
+	seen := map[string]bool{}
+	var out [][]byte
+	for k := int64(1); k <= 2; k++ {
+		for s := int64(0); s <= 12; s++ {
+			for c := int64(1); c <= 2; c++ {
+				num := new(big.Int).Mul(two64, big.NewInt(k))
+				num.Add(num, big.NewInt(s-c))
+				if new(big.Int).Mod(num, big.NewInt(3)).Sign() != 0 {
+					continue
+				}
+				n := num.Div(num, big.NewInt(3))
+				if n.Sign() <= 0 || n.Cmp(two64) >= 0 || seen[n.String()] {
+					continue
+				}
+				seen[n.String()] = true
+				out = append(out, n.Bytes())
+			}
+		}
+	}
+	return out
+}
+
 func c12Pool() [][]byte {
 	n5 := new(big.Int).SetUint64(0x5555555555555556).Bytes() // 3n+2 = 4 (mod 2^64) ... see below
 	n4 := new(big.Int).SetUint64(0x5555555555555557).Bytes()
@@ -335,6 +361,29 @@ func C12(tier Tier) int {
 		}
 		lists(ws[wk], [][]byte{pool[i/len(pool)], pool[i%len(pool)]}, maxLen-2)
 	})
+	// every wrap-around residue in the two count positions, the rest over a reduced pool
+	{
+		res := wrapResidues()
+		small := [][]byte{{}, {1}, []byte("F"), pool[9], pool[10], {0}}
+		Parallel(len(res), func(wk, ri int) {
+			var rest func(cur [][]byte, depth int)
+			rest = func(cur [][]byte, depth int) {
+				for _, fn := range fns[:3] {
+					for _, same := range []bool{false, true} {
+						checkTransferParse(ws[wk], tp, fn, same, append([][]byte{res[ri]}, cur...))
+						checkTransferParse(ws[wk], tp, fn, same, append([][]byte{[]byte("sender-address-0123456789abcdef0"), res[ri]}, cur...))
+					}
+				}
+				if depth == 0 {
+					return
+				}
+				for _, it := range small {
+					rest(append(append([][]byte{}, cur...), it), depth-1)
+				}
+			}
+			rest(nil, 4)
+		})
+	}
 	ws[0].Sample(map[string]interface{}{"function": "MultiESDTNFTTransfer", "args": []string{"5555555555555556", "46", "01", "<payload without Value>"}, "expect": "error or result, no panic"})
 	// (iii) round trips
 	rt := NewEnum()
